@@ -3,6 +3,7 @@ package main
 import (
 	"fmt"
 	"go/constant"
+	"sort"
 	"strings"
 
 	"golang.org/x/tools/go/ssa"
@@ -145,6 +146,19 @@ func checkC09(w *World, r *Report) {
 
 	var publishedName string
 	var publishedDirAP string
+	// split form: the temp file is created in another function than the one that renames it (the save
+	// method delegates to "write the temp file" and "replace the snapshot" helpers): the protocol is
+	// then decided on the paths of the save method with its helpers spliced in
+	splitRegion := map[*ssa.Function]bool{}
+	if len(findCalls(pub, func(n string, _ *ssa.CallCommon) bool { return isOSFunc(n, "CreateTemp") })) == 0 {
+		if entry := c09Entry(w, storeFuncs); entry != nil {
+			r.Anchor("save method (protocol decided on its spliced paths)", FuncName(entry))
+			publishedName, publishedDirAP, splitRegion = c09ProtocolOnPaths(w, r, entry, storeFuncs)
+			renames = nil
+			pub = entry
+			fname = FuncName(pub)
+		}
+	}
 	for _, rn := range renames {
 		c := rn.Common()
 		pos := w.InstrPos(rn)
@@ -335,7 +349,8 @@ func checkC09(w *World, r *Report) {
 		}) {
 			n := calleeName(ci.Common())
 			short := n[strings.LastIndex(n, ".")+1:]
-			allowed := short == "MkdirAll" || (fn == pub && (short == "CreateTemp" || short == "Rename")) || (fn == helper && helper != nil && short == "Rename")
+			allowed := short == "MkdirAll" || (fn == pub && (short == "CreateTemp" || short == "Rename")) || (fn == helper && helper != nil && short == "Rename") ||
+				(splitRegion[fn] && (short == "CreateTemp" || short == "Rename"))
 			r.Check(allowed, "who-may-write.store", FuncName(fn)+": "+n, w.InstrPos(ci),
 				"allowed file-system mutation (directory creation / temp file / publishing rename)",
 				n+" in package store outside the CreateTemp→Encode→Rename protocol: the published file (or its directory) can be left truncated, partial or missing")
@@ -351,6 +366,9 @@ func checkC09(w *World, r *Report) {
 						continue
 					}
 					use := w.publishedNameUse(in, helper, dstIdx)
+					if len(splitRegion) > 0 {
+						use = c09NameUseOnPaths(w, fn, publishedName, storeFuncs)
+					}
 					okUse := use != ""
 					for _, u1 := range strings.Split(use, "+") { // a shared path helper serves both the open and the rename
 						okUse = okUse && (u1 == "os.Rename:dst" || u1 == "os.Open")
@@ -369,13 +387,26 @@ func checkC09(w *World, r *Report) {
 			if len(findCalls(fn, func(n string, _ *ssa.CallCommon) bool { return isOSFunc(n, "Open") })) > 0 {
 				load = fn
 			}
+			// split form: the exported method that reaches os.Open through helpers of the package
+			if len(splitRegion) > 0 && fn != pub && fn.Object() != nil && fn.Object().Exported() && c09OpensOnPaths(w, fn, storeFuncs) != nil {
+				load = fn
+			}
 		}
 	}
 	if load == nil {
 		r.Viol("load.path", "package store: load function", "-", "no method of the store opens a file for reading")
 	} else {
 		r.Anchor("load function (calls os.Open)", FuncName(load))
-		for _, ci := range findCalls(load, func(n string, _ *ssa.CallCommon) bool { return isOSFunc(n, "Open") }) {
+		if len(splitRegion) > 0 {
+			opens := c09OpensOnPaths(w, load, storeFuncs)
+			want := "path.Join([" + publishedDirAP + ",\"" + publishedName + "\"])"
+			okO := len(opens) > 0
+			for _, o := range opens {
+				okO = okO && o == want
+			}
+			r.Check(okO, "load.path", FuncName(load)+": file opened", w.Pos(load.Pos()), "opens "+want+", the path the save publishes", fmt.Sprintf("opens %v but the save publishes %s", opens, want))
+		}
+		for _, ci := range findCalls(load, func(n string, _ *ssa.CallCommon) bool { return isOSFunc(n, "Open") && len(splitRegion) == 0 }) {
 			arg := w.Resolve(ci.Common().Args[0])
 			dir, name := "", ""
 			// a helper method of the same receiver that returns the joined path
@@ -398,6 +429,13 @@ func checkC09(w *World, r *Report) {
 			"save and load use the same codec value "+strings.Join(encG, ","), "save encodes with "+strings.Join(encG, ",")+" but load decodes with "+strings.Join(decG, ","))
 		// not-exist → (&PersistedData{}, nil)
 		res := w.EnumPaths(load, EnumOpts{})
+		if len(splitRegion) > 0 {
+			inStore := map[*ssa.Function]bool{}
+			for _, f := range storeFuncs {
+				inStore[f] = true
+			}
+			res = w.EnumPaths(load, EnumOpts{Inline: true, ForceInline: func(f *ssa.Function) bool { return inStore[f] }, MaxPaths: 20000})
+		}
 		found := false
 		for _, p := range res.Paths {
 			if p.End != "return" || len(p.Ret) != 2 {
@@ -611,4 +649,230 @@ func (w *World) throughRecvPathHelper(v ssa.Value) ssa.Value {
 		return inner
 	}
 	return v
+}
+
+// c09Entry: the exported method of a store type in package store from which os.Rename is reached.
+func c09Entry(w *World, storeFuncs []*ssa.Function) *ssa.Function {
+	var reaches func(f *ssa.Function, d int, seen map[*ssa.Function]bool) bool
+	reaches = func(f *ssa.Function, d int, seen map[*ssa.Function]bool) bool {
+		if seen[f] || d > 3 {
+			return false
+		}
+		seen[f] = true
+		found := false
+		allInstrs(f, func(in ssa.Instruction) {
+			if c := callCommonOf(in); c != nil {
+				if isOSFunc(calleeName(c), "Rename") {
+					found = true
+				} else if g := c.StaticCallee(); g != nil && g.Blocks != nil && w.InModule(g) && reaches(g, d+1, seen) {
+					found = true
+				}
+			}
+		})
+		return found
+	}
+	var out *ssa.Function
+	for _, fn := range storeFuncs {
+		if fn.Parent() == nil && fn.Signature.Recv() != nil && fn.Object() != nil && fn.Object().Exported() && fn.Synthetic == "" && reaches(fn, 0, map[*ssa.Function]bool{}) {
+			if out != nil {
+				return nil
+			}
+			out = fn
+		}
+	}
+	return out
+}
+
+// c09ProtocolOnPaths decides the CreateTemp → Encode → Rename protocol on the paths of the save method
+// with every helper of package store spliced in. Returns the published name, the directory's access
+// path and the functions that belong to the protocol (entry + its exclusive helpers).
+func c09ProtocolOnPaths(w *World, r *Report, entry *ssa.Function, storeFuncs []*ssa.Function) (string, string, map[*ssa.Function]bool) {
+	inStore := map[*ssa.Function]bool{}
+	for _, f := range storeFuncs {
+		inStore[f] = true
+	}
+	fname := FuncName(entry)
+	pos := w.Pos(entry.Pos())
+	res := w.EnumPaths(entry, EnumOpts{Inline: true, ForceInline: func(f *ssa.Function) bool { return inStore[f] }, MaxPaths: 20000})
+	r.Count("paths", len(res.Paths))
+	if res.Truncated || len(res.Paths) == 0 {
+		r.Undecided("protocol.paths", fname, pos, "cannot enumerate the paths of the save method")
+		return "", "", nil
+	}
+	// the region: functions whose calls were spliced, all of whose callers lie in the region too
+	region := map[*ssa.Function]bool{entry: true}
+	for _, p := range res.Paths {
+		for _, e := range p.Effects {
+			if e.Kind == "call" && e.Callee != nil && inStore[e.Callee] {
+				region[e.Callee] = true
+			}
+		}
+	}
+	for f := range region {
+		if f == entry {
+			continue
+		}
+		for _, g := range w.ModFuncs {
+			if !region[g] && len(findCalls(g, func(_ string, c *ssa.CallCommon) bool { return c.StaticCallee() == f })) > 0 {
+				delete(region, f) // also callable from elsewhere: not exclusively part of the protocol
+			}
+		}
+	}
+	dataAP := ""
+	for _, prm := range entry.Params {
+		if strings.HasSuffix(prm.Type().String(), "PersistedData") {
+			dataAP = w.AP(prm)
+		}
+	}
+	okSrc, okDir, okEnc, okArg, okChk, okSucc := true, true, true, true, true, true
+	detail := map[string]string{}
+	pubName, pubDir := "", ""
+	nRename, nSucc := 0, 0
+	for _, p := range res.Paths {
+		createAt, encAt, renameAt := -1, -1, -1
+		createAP, file, dir, pattern, encAP, renameAP := "", "", "", "", "", ""
+		nCreate := 0
+		encOK, renOK := false, false
+		for i, ev := range p.Events {
+			if ev.Eff != nil && ev.Eff.Kind == "call" {
+				e := ev.Eff
+				switch {
+				case isOSFunc(e.Target, "CreateTemp"):
+					nCreate++
+					createAt = i
+					createAP = e.Target + "(" + e.Val + ")"
+					file = createAP + "#0"
+					if a := splitArgs(e.Val); len(a) == 2 {
+						dir, pattern = a[0], strings.Trim(a[1], "\"")
+					}
+				case strings.HasSuffix(e.Target, ".Encode") && file != "" && strings.Contains(e.Val, "NewEncoder("+file+")"):
+					encAt = i
+					encAP = e.Target + "(" + e.Val + ")"
+					if a := splitArgs(e.Val); len(a) == 0 || a[len(a)-1] != dataAP || dataAP == "" {
+						okArg = false
+						detail["arg"] = "Encode receives " + e.Val
+					}
+				case isOSFunc(e.Target, "Rename"):
+					renameAt = i
+					renameAP = e.Target + "(" + e.Val + ")"
+					nRename++
+					a := splitArgs(e.Val)
+					if len(a) != 2 || createAt < 0 || nCreate != 1 || a[0] != "(*os.File).Name("+file+")" {
+						okSrc = false
+						detail["src"] = "source of the rename is " + e.Val
+					}
+					if len(a) == 2 {
+						d, n := "", ""
+						if strings.HasPrefix(a[1], "path.Join([") || strings.HasPrefix(a[1], "path/filepath.Join([") {
+							in := a[1][strings.Index(a[1], "[")+1 : len(a[1])-2]
+							if k := strings.LastIndex(in, ","); k >= 0 {
+								d, n = in[:k], strings.Trim(in[k+1:], "\"")
+							}
+						}
+						if d == "" || d != dir || n == "" || n == pattern || !strings.Contains(pattern, "*") {
+							okDir = false
+							detail["dir"] = fmt.Sprintf("temp file in %q (pattern %q), published to %s", dir, pattern, a[1])
+						}
+						pubName, pubDir = n, d
+					}
+					if encAt < 0 {
+						okEnc = false
+						detail["enc"] = "a path renames without an Encode into the temp file (" + p.LitString() + ")"
+					} else if !encOK {
+						okChk = false
+						detail["chk"] = "os.Rename is reached without the err == nil edge of Encode (" + p.LitString() + ")"
+					}
+				}
+			}
+			if ev.Lit != nil && ev.Lit.Atom.Op == "==" && ev.Lit.Atom.R == "nil" {
+				if encAP != "" && ev.Lit.Atom.L == encAP && i > encAt {
+					encOK = ev.Lit.Val
+				}
+				if renameAP != "" && ev.Lit.Atom.L == renameAP && i > renameAt {
+					renOK = ev.Lit.Val
+				}
+			}
+		}
+		if p.End == "return" && len(p.Ret) > 0 && p.Ret[len(p.Ret)-1] == "nil" {
+			nSucc++
+			if renameAt < 0 || !renOK {
+				okSucc = false
+				detail["succ"] = "a nil error is returned without a successful rename (" + p.LitString() + ")"
+			}
+		}
+	}
+	r.Check(okSrc && nRename > 0, "protocol.temp-source", fname+": source of os.Rename", pos, "on every path the renamed file is Name() of the one file os.CreateTemp returned on that path", detail["src"]+": concurrent saves could share or clobber a temp file, or a partially written file could be published")
+	r.Check(okDir && nRename > 0, "protocol.same-dir", fname+": directory of temp file and published file", pos, "CreateTemp(dir, pattern with *) and Join(dir, name): same directory, names cannot collide", detail["dir"]+": a rename across directories is not atomic, or the temp name can collide with the published one")
+	r.Check(okEnc && nRename > 0, "protocol.encode", fname+": Encode into the temp file", pos, "every renaming path has written through NewEncoder(temp file)", detail["enc"])
+	r.Check(okArg, "protocol.encode-arg", fname+": value encoded", pos, "Encode receives the *PersistedData parameter itself", detail["arg"]+", not the snapshot passed to the save")
+	r.Check(okChk && nRename > 0, "protocol.encode-checked", fname+": Encode error", pos, "every path to os.Rename took the err == nil edge of the Encode result", detail["chk"]+": a failed write is published")
+	r.Check(okEnc && nRename > 0, "protocol.order", fname+": Encode before Rename", pos, "Encode precedes os.Rename on every path", "os.Rename is reachable without passing Encode")
+	r.Check(okSucc && nSucc > 0, "protocol.success-after-rename", fname+": success return", pos, "every nil-error return lies behind the err == nil edge of os.Rename", detail["succ"]+": the caller believes a save that did not happen")
+	return pubName, pubDir, region
+}
+
+// c09OpensOnPaths: the arguments of os.Open on the paths of fn with the helpers of package store spliced in
+// (nil when fn opens nothing).
+func c09OpensOnPaths(w *World, fn *ssa.Function, storeFuncs []*ssa.Function) []string {
+	inStore := map[*ssa.Function]bool{}
+	for _, f := range storeFuncs {
+		inStore[f] = true
+	}
+	res := w.EnumPaths(fn, EnumOpts{Inline: true, ForceInline: func(f *ssa.Function) bool { return inStore[f] }, MaxPaths: 20000})
+	seen := map[string]bool{}
+	var out []string
+	for _, p := range res.Paths {
+		for _, e := range p.Effects {
+			if e.Kind == "call" && isOSFunc(e.Target, "Open") && !seen[e.Val] {
+				seen[e.Val] = true
+				out = append(out, e.Val)
+			}
+		}
+	}
+	sort.Strings(out)
+	return out
+}
+
+// c09NameUseOnPaths classifies what the published file name is used for by the exported methods that
+// reach fn (split form): every os call whose arguments mention the name, on their spliced paths.
+func c09NameUseOnPaths(w *World, fn *ssa.Function, name string, storeFuncs []*ssa.Function) string {
+	inStore := map[*ssa.Function]bool{}
+	for _, f := range storeFuncs {
+		inStore[f] = true
+	}
+	if !inStore[fn] {
+		return "a use outside package store"
+	}
+	uses := map[string]bool{}
+	for _, entry := range storeFuncs {
+		if entry.Parent() != nil || entry.Object() == nil || !entry.Object().Exported() || entry.Synthetic != "" {
+			continue
+		}
+		res := w.EnumPaths(entry, EnumOpts{Inline: true, ForceInline: func(f *ssa.Function) bool { return inStore[f] }, MaxPaths: 20000})
+		for _, p := range res.Paths {
+			for _, e := range p.Effects {
+				if e.Kind != "call" || !strings.Contains(e.Val, "\""+name+"\"") {
+					continue
+				}
+				switch {
+				case isOSFunc(e.Target, "Rename"):
+					if a := splitArgs(e.Val); len(a) == 2 && strings.Contains(a[1], "\""+name+"\"") && !strings.Contains(a[0], "\""+name+"\"") {
+						uses["os.Rename:dst"] = true
+					} else {
+						uses["os.Rename:src"] = true
+					}
+				case isOSFunc(e.Target, "Open"):
+					uses["os.Open"] = true
+				case strings.HasPrefix(e.Target, "os.") || strings.HasPrefix(e.Target, "io/ioutil."):
+					uses[e.Target] = true
+				}
+			}
+		}
+	}
+	var out []string
+	for u := range uses {
+		out = append(out, u)
+	}
+	sort.Strings(out)
+	return strings.Join(out, "+")
 }
